@@ -6,23 +6,23 @@ A_SIZE = 'buffer size < 2^63 (size_t wrap-around branches of _check_boundary/_wr
 A_LIBC = 'libc: memcmp/memset/memmove/strlen/snprintf/printf behave per ISO C; %lld and %f are parameters of the theorems (executable instances compared with glibc each run)'
 
 CONFIG = {
- 'C01': dict(level='proof', tags={'C01'}, owns_crash=['parser', 'other'],
+ 'C01': dict(level='proof', tags={'C01'}, owns_crash=['parser', 'other', 'print'],
              profiles=[('any', 36000, 1152000), ('reuse', 12000, 384000), ('verify', 18000, 576000), ('nav', 12000, 384000)],
              assumptions=[A_MODEL, A_SIZE, 'field lookups are issued only while positioned inside an object (documented)']),
  'C02': dict(level='proof', tags={'C02'}, profiles=[('verify', 72000, 2304000), ('stream', 6000, 192000), ('xverify', 4, 5)], assumptions=[A_MODEL, A_SIZE]),
- 'C03': dict(level='proof', tags={'C03'}, profiles=[('walk', 18000, 576000), ('navg', 18000, 576000)], assumptions=[A_MODEL, A_SIZE]),
+ 'C03': dict(level='proof', tags={'C03'}, owns_crash_ops=['gt', 'gD', 'gs', 'gy', 'gn', 'gi', 'gb', 'gd', 'se'], profiles=[('walk', 18000, 576000), ('navg', 18000, 576000)], assumptions=[A_MODEL, A_SIZE]),
  'C04': dict(level='proof', tags={'C04'}, owns_crash=['writer'], profiles=[('writer', 14400, 460800)], assumptions=[A_MODEL, A_SIZE, 'valid arguments: non-NULL pointers, lengths <= INT32_MAX']),
  'C05': dict(level='proof', tags={'C05'}, profiles=[('rt', 9600, 307200), ('writer', 7200, 230400)], assumptions=[A_MODEL, A_SIZE]),
- 'C06': dict(level='proof', tags={'C06'}, profiles=[('nav', 48000, 1536000), ('navg', 12000, 384000), ('xnav', 46, 58)], assumptions=[A_MODEL, A_SIZE]),
- 'C07': dict(level='proof', tags={'C07'}, profiles=[('nav', 48000, 1536000), ('xnav', 46, 57)], assumptions=[A_MODEL, A_SIZE]),
+ 'C06': dict(level='proof', tags={'C06'}, owns_crash_ops=['n', 'io', 'ia', 'lo', 'la'], profiles=[('nav', 48000, 1536000), ('navg', 12000, 384000), ('xnav', 46, 58)], assumptions=[A_MODEL, A_SIZE]),
+ 'C07': dict(level='proof', tags={'C07'}, owns_crash_ops=['f', 'fz', 'F', 'Fz'], profiles=[('nav', 48000, 1536000), ('xnav', 46, 57)], assumptions=[A_MODEL, A_SIZE]),
  'C08': dict(level='proof', tags={'C08'}, profiles=[('stream', 60000, 1920000)], assumptions=[A_MODEL, A_SIZE]),
  'C09': dict(level='proof', tags={'C09'}, profiles=[('any', 36000, 1152000), ('writer', 9600, 307200), ('stream', 9600, 307200)], assumptions=[A_MODEL, A_SIZE]),
  'C10': dict(level='proof', tags={'C10'}, owns_crash=['writer'], profiles=[('tr', 36000, 1152000), ('rt', 6000, 192000)], assumptions=[A_MODEL, A_SIZE]),
- 'C11': dict(level='proof', tags={'C11'}, profiles=[('nav', 48000, 1536000), ('xnav', 46, 57)], assumptions=[A_MODEL, A_SIZE]),
+ 'C11': dict(level='proof', tags={'C11'}, owns_crash_ops=['gr', 'p2w'], profiles=[('nav', 48000, 1536000), ('xnav', 46, 57)], assumptions=[A_MODEL, A_SIZE]),
  'C12': dict(level='proof', tags={'C12'}, owns_crash=['writer'], profiles=[('reuse', 36000, 1152000), ('writer', 6000, 192000)], assumptions=[A_MODEL, A_SIZE]),
  'C13': dict(level='proof', tags={'C13'}, owns_crash=['print'], profiles=[('print', 14400, 24000), ('any', 9600, 307200)], assumptions=[A_MODEL, A_SIZE, A_LIBC]),
  'C14': dict(level='proof', tags={'C14'}, profiles=[('print', 18000, 30000)], assumptions=[A_MODEL, A_SIZE, A_LIBC]),
- 'C16': dict(level='proof', tags={'C16'}, owns_crash=['timeout'], profiles=[('any', 36000, 1152000), ('verify', 24000, 768000), ('stream', 18000, 576000)], assumptions=[A_MODEL, A_SIZE]),
+ 'C16': dict(level='proof', tags={'C16'}, owns_crash=['timeout'], profiles=[('any', 36000, 1152000), ('anyL', 12000, 384000), ('verify', 24000, 768000), ('stream', 18000, 576000)], assumptions=[A_MODEL, A_SIZE]),
  'C15': dict(level='proof', tags={'C15'}, profiles=[('cpp-trees', 0, 0), ('cpp-bytes', 0, 0)], special='c15', assumptions=[A_MODEL, A_SIZE, 'std::map orders std::string keys as unsigned bytes; std::string/std::vector have value semantics', 'crashes, uninitialised reads and the exception machinery are runtime behaviour outside the Lean model: decided by the ASan+UBSan harness with a poisoned stack (partial)']),
  'C17': dict(level='proof', tags=set(), profiles=[], special='c17'),
  'C18': dict(level='translation_validation', tags=set(), profiles=[], special='c18'),
